@@ -27,6 +27,23 @@ CHECKS = {
             "in every explored schedule a producer never begins a step while a direct consumer has an earlier step outstanding", SCHED_NOTE),
 }
 
+ENUM_NOTE = ("trusted base: the reference predicate/table written from the statement and the docs; the "
+             "enumeration bound stated in the evidence; every case is executed on the real code")
+CHECKS.update({
+    "C06": ("model_checking", "3 C06", "bounded-exhaustive enumeration of connection multigraphs (<=3 simulators, 4 group placements, <=4 connections of kind plain/shifted/weak/async, up to renaming) through world.run(); reference = simple-cycle enumeration",
+            "every enumerated graph: ScenarioError before any step iff the reference finds an unresolved cycle, named cycle is real, accepted scenarios run", ENUM_NOTE),
+    "C08": ("model_checking", "3 C08", "bounded-exhaustive enumeration of TieredInterval/TieredTime values of every shape (length<=3, tiers 0..2) and evaluation of the order/action/associativity laws with the real operators",
+            "all ordered pairs / triples within the bound satisfy trichotomy, transitivity, monotone action, associativity", ENUM_NOTE),
+    "C11": ("model_checking", "3 C11", "bounded-exhaustive enumeration of connect() calls (types x group placements x attributes x flags, two-pair calls, any_inputs) against a reference predicate, world snapshot before/after; schedule exploration of group-scoping scenarios",
+            "every enumerated call is rejected exactly when the reference says so and a rejected pair leaves the world unchanged; sub-time is shared only inside the common group in every schedule", ENUM_NOTE),
+    "C12": ("model_checking", "3 C12", "bounded-exhaustive enumeration of model descriptions over a 3-attribute universe x any_inputs x 3 types through world.start(), classification probed via the public surface; all set-operator applications on finite/co-finite sets",
+            "all 354 294 descriptions: rejected or classified exactly as the finite-set reference says", ENUM_NOTE),
+    "C15": ("model_checking", "3 C15", "exhaustive enumeration of (version string, init/step signature, type, configured api_version, transport) starts against a table; schedule exploration of a 3-simulator scenario with the old simulator in each position",
+            "every combination of the closed list is rejected or served exactly as the table says; the old simulator's view equals the current-version view in every schedule", ENUM_NOTE),
+    "C18": ("model_checking", "3 C18", "exhaustive enumeration of every outcome of every random call (enumerating random source, DFS over choice sequences) for all set sizes/flags in the bound",
+            "for <=5 sources, <=4 destinations, all flags: every random outcome satisfies the distribution contract", ENUM_NOTE),
+})
+
 NOT_YET = {
 }
 
